@@ -124,6 +124,9 @@ def run_verus_part(res, cfg, src, report_extra):
     for m in mine:
         if m["kind"] in ("specfn", "trusted", "requires"):
             continue
+        if m.get("assumed"):
+            res.trusted.append("ASSUMED contract (not discharged here): %s ensures %s" % (m["fn"], m.get("text", "")))
+            continue
         oid = verus.obligation_id(m)
         fn = m["fn"]
         checked = True
